@@ -1,0 +1,42 @@
+//! Off-by-default observation hooks used by external runtime monitors.
+//!
+//! Compiled only with the `verif-hooks` cargo feature. The hooks append events to a
+//! thread-local log; they never change control flow or any returned value.
+
+use std::cell::RefCell;
+
+/// One observed event: a static tag plus up to three numeric operands.
+#[derive(Clone, Debug, PartialEq, Eq)]
+pub struct Event {
+    /// Which site emitted the event.
+    pub tag: &'static str,
+    /// First operand (usually a type id).
+    pub a: u32,
+    /// Second operand.
+    pub b: u32,
+    /// Third operand.
+    pub c: u32,
+}
+
+thread_local! {
+    static LOG: RefCell<Option<Vec<Event>>> = const { RefCell::new(None) };
+}
+
+/// Start (or restart) recording on this thread.
+pub fn start() {
+    LOG.with(|l| *l.borrow_mut() = Some(Vec::new()));
+}
+
+/// Stop recording and hand back everything recorded since [`start`].
+pub fn take() -> Vec<Event> {
+    LOG.with(|l| l.borrow_mut().take().unwrap_or_default())
+}
+
+/// Append an event if recording is active on this thread.
+pub fn emit(tag: &'static str, a: u32, b: u32, c: u32) {
+    LOG.with(|l| {
+        if let Some(log) = l.borrow_mut().as_mut() {
+            log.push(Event { tag, a, b, c });
+        }
+    });
+}
